@@ -664,6 +664,10 @@ def lemma_lockstep(rep, F, L):
     inst = [i for i in sub.instances if i.rule in ("LOCKSTEP",)]
     bad = [i for i in inst if i.status != "discharged"]
     chk(rep, L, "L-LOCKSTEP", len(inst) >= 24 and not bad, "L-LOCKSTEP/imported", "src/parser.rs|src/optimiser.rs", "all %d lockstep obligations hold" % len(inst), "; ".join(i.key for i in bad[:4]))
+    # the scan `find_overlapping_iter` itself panics on an automaton configured with another match kind or an anchored start kind
+    kinds = [i for i in sub.instances if i.rule == "AHO-OVERLAP" and i.key.startswith("AHO-OVERLAP/kind/")]
+    badk = [i for i in kinds if i.status != "discharged"]
+    chk(rep, L, "L-LOCKSTEP", len(kinds) >= 6 and not badk, "L-LOCKSTEP/automaton-config", "src/parser.rs|src/optimiser.rs", "all %d automaton builders keep the configuration the solver's overlapping scan accepts" % len(kinds), "; ".join(i.key for i in badk[:4]))
 
 
 def make_rules(F, L):
